@@ -1,7 +1,7 @@
 (* Proofs/WritersName0.v -- names without a first name: Writer._format_name writes "von Last" (no comma), which
    Person(string) reads in the First-von-Last form (C02). *)
 From Pybtex Require Import Base.Prelude Base.PyChar Base.PyStr Model.BibtexStr Model.Names Model.Scanner Model.BibParser Model.Writers
-  Proofs.WritersTree Proofs.WritersPerson Proofs.WritersName.
+  Proofs.WritersTree Proofs.WritersPerson Proofs.WritersName Proofs.WritersNameList.
 Local Open Scope N_scope.
 
 (* expressible without a comma: no first / middle / lineage part; either a single last-name token and no von part,
@@ -59,4 +59,30 @@ Proof.
     change (x :: v' ++ p_last p) with ((x :: v') ++ p_last p).
     pose proof (von_last_ok (x :: v') (p_last p) Hne (or_intror Hlast) Hnv) as VL. unfold str, char in *. rewrite VL. cbn [bind].
     rewrite !app_nil_r. destruct p; cbn in *; subst; reflexivity.
+Qed.
+
+(* a name without a first name is an instance of the general name domain of Proofs/WritersNameList.v *)
+Lemma name_ok0_x p : expressible0 p -> Forall noand_tok (p_prelast p ++ p_last p) -> name_okx p.
+Proof.
+  intros E Ha. split; [|now apply bibtex_name_roundtrip0_pf].
+  rewrite (format_name0 p E). destruct E as (_ & _ & _ & Hv & Hl & Hc).
+  exists (p_prelast p ++ p_last p). split; [reflexivity|]. split.
+  - assert (Hvl : Forall nplain_tok (p_prelast p ++ p_last p)) by (apply Forall_app; auto).
+    clear -Hvl Ha. induction (p_prelast p ++ p_last p) as [|t r IH]; [constructor|].
+    inversion Hvl; inversion Ha; subst. constructor; [now apply tok_gw|auto].
+  - destruct Hc as [(_ & z & b & El & _)|(_ & _ & _ & H & _)].
+    + rewrite El. destruct (p_prelast p); discriminate.
+    + destruct (p_prelast p); [exact H|discriminate].
+Qed.
+
+(* plain-token names also survive the part-wise spelling of the YAML / BibTeXML writers *)
+Lemma expressible_parts_ok p : expressible p -> parts_ok p.
+Proof.
+  intros (Hf & Hm & Hv & Hl & Hj & _). apply person_parts_plain_pf.
+  repeat split; now apply nplain_plain_toks.
+Qed.
+Lemma expressible0_parts_ok p : expressible0 p -> parts_ok p.
+Proof.
+  intros (Ef & Em & Ej & Hv & Hl & _). apply person_parts_plain_pf. unfold plain_person. rewrite Ef, Em, Ej.
+  repeat split; try constructor; now apply nplain_plain_toks.
 Qed.
